@@ -63,8 +63,40 @@ def m_opaque_bytes(tag):
     return f
 
 
+_SHA_TABLE = {}
+
+
+def _peer_sha_table():
+    """z3 array v -> SHA-256 of the harness peer id whose identity digest starts with byte v (exact, all 256 ids)"""
+    if 'arr' not in _SHA_TABLE:
+        import hashlib
+        arr = z3.K(z3.BitVecSort(8), z3.BitVecVal(0, 256))
+        for v in range(256):
+            h = hashlib.sha256(bytes([0, 32, v] + [0] * 31)).digest()
+            arr = z3.Store(arr, z3.BitVecVal(v, 8), z3.BitVecVal(int.from_bytes(h, 'big'), 256))
+        _SHA_TABLE['arr'] = arr
+    return _SHA_TABLE['arr']
+
+
+def m_sha256(it, a, ty, callee):
+    import hashlib
+    data = a[0]
+    while isinstance(data, Ptr):
+        data = it.load(data)
+    bs = data.fields
+    if all(b.conc for b in bs):
+        h = hashlib.sha256(bytes(b.v for b in bs)).digest()
+        return Seq([Int(x, 8) for x in h], 'array')
+    sym = [i for i, b in enumerate(bs) if not b.conc]
+    if len(bs) == 34 and sym == [2] and bs[0].v == 0 and bs[1].v == 32 and all(b.v == 0 for b in bs[3:]):
+        word = z3.Select(_peer_sha_table(), bs[2].z())
+        return Seq([Int(z3.Extract(255 - 8 * i, 248 - 8 * i, word), 8) for i in range(32)], 'array')
+    raise Inconclusive('SHA-256 of a symbolic byte string (only concrete inputs and harness peer ids are modelled)')
+
+
 def install(it):
     A = it.add_model
+    A(r'<sha2::Sha256 as sha2::Digest>::digest::<.*>', m_sha256)
     A(r'std::time::Duration::from_secs', m_dur_from(10 ** 9))
     A(r'std::time::Duration::from_millis', m_dur_from(10 ** 6))
     A(r'std::time::Duration::from_nanos', m_dur_from(1))
@@ -84,3 +116,4 @@ def install(it):
     A(r'sha2::digest::hybrid_array::Array::<.*>::as_slice', m_array_as_slice)
     A(r'protocol::libp2p::kademlia::message::KademliaMessage::find_node::<.*>', m_opaque_bytes('find_node_msg'))
     A(r'protocol::libp2p::kademlia::message::KademliaMessage::get_record', m_opaque_bytes('get_record_msg'))
+    A(r'protocol::libp2p::kademlia::message::KademliaMessage::(get_providers_request|put_value|add_provider)', m_opaque_bytes('kad_msg'))
